@@ -103,6 +103,30 @@ func genXport(r *rng, seed uint64, focus, arm string) *plan.Plan {
 		p.Knobs.YieldDensity, p.Knobs.StallProb, p.Knobs.YieldMask = []float64{0.1, 0.3, 0.6}[r.intn(3)], 0, 0
 		return p
 	}
+	if focus == "C14" && arm == "stale" && r.p(0.15) {
+		// a pooled pipelined connection that has answered before dies with
+		// exchanges in flight (the server resets what is established and keeps
+		// listening): every waiter is retried on another connection and succeeds
+		u := upSpec(r, 0, []string{"tcp+pipeline", "tls+pipeline"}[r.intn(2)])
+		xp.Upstreams = []plan.UpstreamSpec{u}
+		xp.Net.UpLatUs = [2]int64{50, int64(r.rng(100, 2000))}
+		xp.IdleMs = 0
+		xp.Tokens["t0"] = &plan.TokenSpec{Ans: plan.AnswerSpec{NAn: 1, TTLs: []uint32{300}, Shape: "plain"}, Acts: []plan.UpAction{{Kind: "reply", DelayUs: r.i64(100, 2000)}}}
+		xp.Calls = append(xp.Calls, plan.XCall{Idx: 0, Up: 0, AtUs: 1000, ID: uint16(r.u64()), Token: "t0", Type: 1, DeadlineUs: 6_000_000})
+		hold := r.i64(200_000, 600_000)
+		t1 := int64(100_000)
+		for i, n := 1, r.rng(2, 40); i <= n; i++ {
+			tok := fmt.Sprintf("t%d", i)
+			xp.Tokens[tok] = &plan.TokenSpec{Ans: plan.AnswerSpec{NAn: 1, TTLs: []uint32{300}, Shape: "plain"}, Acts: []plan.UpAction{{Kind: "reply", DelayUs: hold}}}
+			xp.Calls = append(xp.Calls, plan.XCall{Idx: i, Up: 0, AtUs: t1 + r.i64(0, 2000), ID: uint16(r.u64()), Token: tok, Type: 1, DeadlineUs: 6_000_000})
+		}
+		xp.ServerEvents = []plan.ServerEvent{{Up: 0, AtUs: t1 + 2000 + 4*xp.Net.UpLatUs[1] + r.i64(5_000, hold/2), Kind: "reset_all"}}
+		xp.HorizonUs = 20_000_000
+		if p.Knobs.YieldDensity == 0 {
+			p.Knobs.YieldDensity = []float64{0.1, 0.3, 0.6}[r.intn(3)]
+		}
+		return p
+	}
 	if focus == "C14" && arm == "stale" && r.p(0.3) {
 		// a burst fills the pool of a one-query-at-a-time transport with n
 		// connections; the server closes them while they idle (or restarts);
